@@ -93,3 +93,55 @@ Theorem C17_pattern_reparse_abs : forall cur s p,
   forall cur', parse_pattern cur' (print_pattern p) = Some p.
 Proof. exact pattern_reparse_abs. Qed.
 Print Assumptions C17_pattern_reparse_abs.
+
+(* ---- pattern lists (ParsePatternsOrMatchAll, GetMatchAllTargetPattern, TargetPatternFromLabel) *)
+
+(* what a command line selects: a label is selected iff one of the arguments, parsed on its own
+   in the current package, matches it; an empty argument list selects every label; one bad
+   argument rejects the whole list *)
+Theorem C17_pattern_list_selects : forall cur ss ps l,
+  parse_patterns_or_all cur ss = Some ps ->
+  (matches_any ps l = true <->
+   ss = [] \/ exists s p, In s ss /\ parse_pattern cur s = Some p /\ matches p l = true).
+Proof. exact patterns_or_all_selects. Qed.
+Print Assumptions C17_pattern_list_selects.
+
+Theorem C17_pattern_list_rejects : forall cur ss,
+  ss <> [] ->
+  (parse_patterns_or_all cur ss = None <-> exists s, In s ss /\ parse_pattern cur s = None).
+Proof.
+  intros cur ss Hne. rewrite (patterns_or_all_nonempty cur ss Hne). apply parse_patterns_rejects.
+Qed.
+Print Assumptions C17_pattern_list_rejects.
+
+Theorem C17_pattern_list_pointwise : forall cur ss ps,
+  ss <> [] ->
+  (parse_patterns_or_all cur ss = Some ps <->
+   Forall2 (fun s p => parse_pattern cur s = Some p) ss ps).
+Proof.
+  intros cur ss ps Hne. rewrite (patterns_or_all_nonempty cur ss Hne). apply parse_patterns_pointwise.
+Qed.
+Print Assumptions C17_pattern_list_pointwise.
+
+(* the pattern made from a label selects exactly that label -- for every valid name but the
+   reserved word "all", where it is the package wildcard (kernel-checked witness) *)
+Theorem C17_pattern_of_label_exact : forall l l',
+  valid_name (lname l) = true -> lname l <> all_lit ->
+  (matches (pattern_of_label l) l' = true <-> l' = l).
+Proof. exact pattern_of_label_exact. Qed.
+Print Assumptions C17_pattern_of_label_exact.
+
+Theorem C17_pattern_of_label_all_refuted :
+  exists l l', l' <> l /\ matches (pattern_of_label l) l' = true.
+Proof. exact pattern_of_label_all_refuted. Qed.
+Print Assumptions C17_pattern_of_label_all_refuted.
+
+Example C17_pattern_list_nonvacuous :
+  exists ps, parse_patterns_or_all ["a"%char]
+               [[ch_slash; ch_slash; "p"%char; ch_slash; ch_dot; ch_dot; ch_dot];
+                [ch_colon; "t"%char]] = Some ps /\
+             matches_any ps (mkLabel ["p"%char; ch_slash; "q"%char] ["x"%char]) = true /\
+             matches_any ps (mkLabel ["a"%char] ["t"%char]) = true /\
+             matches_any ps (mkLabel ["a"%char] ["u"%char]) = false.
+Proof. eexists; split; [vm_compute; reflexivity | vm_compute; repeat split]. Qed.
+Print Assumptions C17_pattern_list_nonvacuous.
